@@ -15,6 +15,8 @@ agree = Base.agree; signature = Base.signature; explain = Base.explain
 
 
 def classify(op, m):
+    if not op.startswith('mice.'):
+        return op.split(' ')[0] + ':' + m.split(' ')[0]
     t = m.split(' ')
     return op.split(' ')[0] + ':' + t[-1] + (':released' if t[0] not in ('-', 'nderr') else '')
 
@@ -155,3 +157,45 @@ def generate0(tier, rng):
             elif k == 2: t += rbytes(rng, rng.randrange(1, 40))
             elif k == 3 and t: del t[rng.randrange(len(t))]
         yield f'mice.dec {d} {rng.choice([16384, rs, 1])} {hexs(h)} {hexs(bytes(t))} {sizes(rng, rs)}'
+
+
+def run(ctx):
+    """the decoder ops of generate(), then the two consumers of the decoder inside the library: what Exchange.Verify and the
+    bundle-signature VerifyExchange hand out is the complete payload or nothing -- for payloads cut at every record / proof boundary
+    and inside proofs, and for small bodies that span several records"""
+    import sxglib, bundlelib, c06
+    from sxglib import unhex
+    rng = ctx.rng
+    ctx.both(list(generate(ctx.tier, rng)))
+    w = sxglib.setup(ctx)
+    k = [k for k in w.keys if k['curve'] == 'p256' and k['hosts'].startswith(b'example.com')][0]
+    cu, vu, d0 = b'https://example.com/cert.msg', b'https://example.com/v', 1517418800
+    sops = []
+    for ver in sxglib.VERS:
+        for rs, plen in ((16, 40), (16, 48), (4, 9), (100, 250)):
+            e = sxglib.ex(ver, b'https://example.com/', b'GET', [], 200, [(b'Content-Type', [b'text/html'])], b'', rbytes(rng, plen))
+            sops.append((f'sxg.sign {sxglib.exs(e)} {rs} {k["cert"]} {k["key"]} {hexs(cu)} {hexs(vu)} {d0} {d0 + 3600}', rs))
+    items = []
+    for (op, rs), r in zip(sops, ctx.go([o for o, _ in sops])):
+        se = sxglib.parse_ex(r) if r else None
+        if not se: continue
+        pl = unhex(se[7])
+        cuts = set([len(pl)])
+        unit = rs + 32
+        for u0 in range(8, len(pl) + 1, unit):            # unit boundaries, record ends, first / middle / last byte of each proof
+            cuts.update([u0, u0 + rs, u0 + rs + 1, u0 + rs + 16, u0 + rs + 31, u0 + 1])
+        cuts.update([0, 1, 7, 8, 9])
+        for c in sorted(c for c in cuts if 0 <= c <= len(pl)):
+            items.append((se[:7] + [hexs(pl[:c])], (d0 + 10, 0), {cu: k['chain']}))
+        items.append((se[:7] + [hexs(pl + pl[8:8 + unit])], (d0 + 10, 0), {cu: k['chain']}))      # extended by a copy of the first unit
+    sxglib.verify_stage(ctx, items)
+    # bundle signatures: bodies of several records that are small as a whole (every record size below the body length)
+    bops = []
+    for v in ('b1', 'b2'):
+        for rs, blen in ((16, 40), (16, 16), (1, 5), (4096, 4097), (4096, 9000), (100, 101)):
+            bb = bundlelib.bundle(v, b'https://example.com/', None, None, [bundlelib.exch(b'https://example.com/', 200, [(b'Content-Type', [b'text/plain'])], rbytes(rng, blen))])
+            bops.append(f'bsig.sign {bb} {rs} {k["cert"]}:{hexs(b"ocsp")}:nil {k["key"]} {hexs(b"https://example.com/validity")} {d0} 3600')
+    signed = [r[3:] for r in ctx.go(bops) if r and r.startswith('ok ')]
+    if len(signed) < len(bops):
+        ctx.infra.append(f'{len(bops) - len(signed)} bundles could not be signed')
+    c06.verify_stage(ctx, [(b, (d0 + 10, 0)) for b in signed])
